@@ -1,9 +1,13 @@
 //! Property registry.
 pub mod common;
+pub mod c01;
+pub mod c09;
+pub mod c11;
 pub mod c12;
+pub mod c13;
 
 use crate::runner::Property;
 
 pub fn all() -> Vec<&'static dyn Property> {
-    vec![&c12::C12]
+    vec![&c01::C01, &c09::C09, &c11::C11, &c12::C12, &c13::C13]
 }
